@@ -68,6 +68,9 @@ def random_case(rng, tier):
         # step that has just returned is being left (EXITING_STATE).  The restored process may execute that step once more -
         # its command had not taken effect - and then the command means what it says
         case['crash_on_exit'] = sorted({rng.randint(1, len(program['steps']) + 2) for _ in range(rng.randint(1, 2))})
+    for step in program['steps']:
+        if step['ret']['t'] in ('continue', 'wait', 'stop', 'kill') and rng.random() < 0.2:
+            step['ret']['subcmd'] = True  # an application subclass of the command
     for number, step in enumerate(program['steps']):
         if step['ret']['t'] == 'continue' and rng.random() < 0.3:
             step['ret']['token'] = number  # an argument with identity
